@@ -40,7 +40,7 @@ func (r *relativePathsResolver) maybeUnixPath(a any) (any, error) {
 		if filepath.IsAbs(p) {
 			return p, nil
 		}
-		return filepath.Join(r.workingDir, p), nil
+		return r.join(p), nil
 	}
 	return p, nil
 }
